@@ -1464,7 +1464,8 @@ impl<'forest, I: Interner> SolveState<'forest, I> {
 
         let table_goal = &self.forest.tables[table].table_goal;
 
-        let filtered_delayed_subgoals = delayed_subgoals
+        let mut filtered_delayed_subgoals: Vec<InEnvironment<Goal<I>>> = Vec::new();
+        delayed_subgoals
             .into_iter()
             .filter(|delayed_subgoal| {
                 let canonicalized = InferenceTable::u_canonicalize(
@@ -1477,7 +1478,15 @@ impl<'forest, I: Interner> SolveState<'forest, I> {
                 .quantified;
                 *table_goal != canonicalized
             })
-            .collect();
+            .for_each(|delayed_subgoal| {
+                // The same subgoal can be delayed more than once (each time
+                // an answer that carries it is merged in). Answers must not
+                // differ only in how often a delayed subgoal is repeated:
+                // a coinductive cycle would yield them for ever.
+                if !filtered_delayed_subgoals.contains(&delayed_subgoal) {
+                    filtered_delayed_subgoals.push(delayed_subgoal);
+                }
+            });
 
         let subst = Canonical {
             binders,
